@@ -298,3 +298,10 @@ M('c12-reuse-mp-always', 'C12', 'GRP-REUSE', 'model-parallel group reused as the
   (GA, "            stage_peers: dict[int, list[int]] = {}\n            for r in range(topology.world_size()):\n                stage_peers.setdefault(topology.get_coord(r).pipe, []).append(r)\n            self.pipe_parallel_peer_group = None\n            for stage in sorted(stage_peers):\n                stage_group = dist.new_group(stage_peers[stage])\n                if stage == self.pipe_parallel_rank:\n                    self.pipe_parallel_peer_group = stage_group\n", "            self.pipe_parallel_peer_group = self.model_parallel_group\n"))
 M('c12-load-by-rank', 'C12', 'AFF-LOAD', 'position-indexed load table updated by rank',
   (GA, "            worker_loads[min_worker_index] += cost", "            worker_loads[min_worker] += cost"))
+T('c19-twin-hoisted-step', 'C19', 'effective step resolved once in a prologue',
+  (SC, '        if self._factor_update_steps_lambda is not None:\n            factor = self._factor_update_steps_lambda(\n                step if step is not None else self._preconditioner.steps,\n            )',
+       '        if step is None:\n            step = self._preconditioner.steps\n        if self._factor_update_steps_lambda is not None:\n            factor = self._factor_update_steps_lambda(\n                step,\n            )'))
+M('c19-skip-repeated-step', 'C19', 'SIB-SCHED', 'scheduler returns early when the step repeats',
+  (SC, '        if self._factor_update_steps_lambda is not None:\n            factor = self._factor_update_steps_lambda(', '        if step is not None and step == getattr(self, "_last", None):\n            return\n        self._last = step\n        if self._factor_update_steps_lambda is not None:\n            factor = self._factor_update_steps_lambda('))
+M('c19-elif-refusals', 'C19', 'SIB-REFUSE', 'refusal checks chained with elif',
+  (SC, "        if self._inv_update_steps_lambda is not None:\n            if callable(self._preconditioner._inv_update_steps):", "        elif self._inv_update_steps_lambda is not None:\n            if callable(self._preconditioner._inv_update_steps):"))
